@@ -20,7 +20,7 @@ class Contract:
                  props=(), eq_on_ref=None, setter=False, joins=None, closure_of=None, free=None, trusted=False, note='',
                  exc_ensures=None, ghost_out=None, fresh_result=False, globals_=None, replay=None, lists=None, yield_acc=None, yield_ensures=None,
                  raises_ensures=None, call_keys=None, frame_assumed=None,
-                 frame_prune=None, frame_dispatch=None, match_facts=None, locals_=None, match_layout=None, attr_calls=None):
+                 frame_prune=None, frame_dispatch=None, match_facts=None, locals_=None, match_layout=None, attr_calls=None, abstract_strings=None):
         self.qual = qual
         self.kind = kind              # function | method | property | generator
         self.params = dict(params or {})
@@ -58,6 +58,7 @@ class Contract:
         self.raises_ensures = dict(raises_ensures or {})   # exception class -> clauses over the raised object `exc`
         self.call_keys = dict(call_keys or {})   # callee qualname -> contract key to use at this function's call sites
         self.attr_calls = dict(attr_calls or {})   # attribute of self holding a callable (class / function given at construction) -> contract key used for calls through it
+        self.abstract_strings = abstract_strings   # None | 'first' | 'only': discharge through the string abstraction (pv/abstr.py)
         self.replay = replay          # dict(observe={name: spec expr over the entry state}, script=python template)
         self._parsed = {}
 
